@@ -111,7 +111,9 @@ def check(pid, tier="quick", seed=0, jobs=None, only=None, verbose=False):
         print("unknown property %s" % pid)
         return 3
     quals = sorted(q for q, c in C.REGISTRY.items() if pid in c.props and (only is None or only in q))
-    timeout_ms = 20000 if tier == "quick" else 120000
+    # generous budgets: on an idle machine every obligation discharges in milliseconds to a few seconds; the budget only
+    # matters when all cores are busy, and a verdict must not flip to 'undecided' then
+    timeout_ms = 60000 if tier == "quick" else 240000
     agree = tier == "thorough"
     jobs = jobs or min(16, max(1, len(quals)))
     results = []
